@@ -210,7 +210,7 @@ def _unify(p, n, b) -> bool:
             if not isinstance(nv, ast.AST) or not _unify(pv, nv, b):
                 return False
         else:
-            if isinstance(pv, str) and field in ('name', 'id') and pv.startswith('__V_'):
+            if isinstance(pv, str) and field in ('name', 'id', 'attr') and pv.startswith('__V_'):
                 key = pv[4:]
                 if key != '_':
                     if key in b and b[key] != nv:
